@@ -53,6 +53,7 @@ def Guard.effect (m : Mode) : Guard → Effect
   | .noConstCaller => .none
   | .listConstNoAlloc => .none
   | .readOnlyUse => .none
+  | .mappingPhaseOnly => if m.wrapperPrebuilt then .none else .sharedWrite
 
 open XalanModel.Generated.C07_Share (allow) in
 def classify (e : Entry) : Option Guard :=
@@ -63,6 +64,11 @@ def guardEvidence (e : Entry) : Bool :=
   match classify e with
   | some .headForced => e.kind == .lazyContainer && e.funcs.head? == some "@forced"
   | some .noConstLookup => e.kind == .lazyContainer && e.funcs.isEmpty
+  | some .mappingPhaseOnly =>
+    e.kind == .guardedWrite &&
+      (match XalanModel.Generated.C07_Share.guards.find? (fun g => g.key == e.key) with
+       | some g => g.implies "m_mappingMode"
+       | none => false)
   | some .listConstNoAlloc =>
     e.kind == .lazyContainer &&
       XalanModel.Generated.C07_Share.table.any (fun h => h.key == XalanModel.Generated.C07_Share.k_listHead)
@@ -88,6 +94,7 @@ def Mode.xercesMapping : Mode := { xercesThreadSafe := false, wrapperPrebuilt :=
 def Mode.ofName : String → Option Mode
   | "default" => some .documented
   | "xerces-ts" => some .documented
+  | "xerces-ts-setid" => some .documented
   | "as-is" => some .documentedAsIs
   | "xerces-default" => some .documented   -- XercesDOMParsedSource asks its liaison for thread-safe mode (fix: 8b7d92c)
   | "xerces-nopool" => some .xercesNoPool
